@@ -42,6 +42,8 @@ def member_obs(result):
         "lines": lines,
         "variables": p.variables,
         "printouts": list(result.printouts),
+        # every named stream (print's second argument), in the order the streams were first used
+        "printouts_all": [[str(k), list(v or [])] for k, v in (result.get_printouts() or {}).items()],
         "valid": bool(p.is_valid),
         "result_valid": bool(result.is_valid),
         "stopped": bool(p.stopped),
